@@ -4,7 +4,14 @@ status codes; objects passed in or handed out are isolated.
 History + reference-model monitor.  A case is one generated schema (vf.repogen)
 plus a history of 10..60 Create/Modify/Delete/Get/EnumerateInstances/
 EnumerateInstanceNames calls, valid and invalid, on a fresh
-FakedWBEMConnection.  After every call the harness mutates, in place, every
+FakedWBEMConnection.  Three schema modes: plain classes; plus association
+classes (key and non-key references, instances within and across
+namespaces, reference values in other lexical case, missing end points);
+plus the CIM_Namespace provider in an Interop namespace (complete,
+incomplete, mismatching and duplicate CIM_Namespace instances; the set of
+namespaces is part of the model).  Half of the schemas declare
+EmbeddedInstance properties (values of the declared class, a subclass, an
+unrelated or unknown class).  After every call the harness mutates, in place, every
 object it passed in and every object it got back, and re-reads the affected
 part of the store through the public operations; the model never sees those
 mutations, so aliasing shows up as a disagreement that is blamed on the
@@ -32,15 +39,23 @@ META = dict(
               'sys.monitoring reach counters',
     level_text='Seeded schemas (1-3 namespaces, class trees to depth 3, key '
                'properties of 13 types, non-key properties of all 14 '
-               'non-reference types incl. arrays/NULLs, built through MOF or '
-               'CreateClass) and histories of 10-60 instance operations with '
-               'existing/deleted/duplicate/differently-cased/partial/extra-key '
-               'paths, PropertyList variants, undeclared/wrongly typed '
-               'properties, unknown classes and namespaces. Every result and '
-               'status code is compared with a ~150-line model; every write '
-               'and every client-side mutation is followed by a re-read of '
-               'the affected class tree; the whole store is compared at the '
-               'end. Held-on-K-histories evidence, not a proof.',
+               'non-reference types incl. arrays/NULLs, EmbeddedInstance '
+               'properties, association classes with key and non-key '
+               'references, optionally the CIM_Namespace provider; built '
+               'through MOF or CreateClass) and histories of 10-60 instance '
+               'operations with existing/deleted/duplicate/differently-cased/'
+               'partial/extra-key paths, PropertyList variants, undeclared/'
+               'wrongly typed properties, unknown classes and namespaces, '
+               'association instances within and across namespaces with '
+               're-cased reference values and missing end points, embedded '
+               'instances of declared/sub/unrelated/unknown classes, '
+               'CIM_Namespace instances that are complete, incomplete, '
+               'mismatching or duplicate. Every result and status code is '
+               'compared with a ~300-line model; every write and every '
+               'client-side mutation is followed by a re-read of the affected '
+               'class tree in every namespace the instance lives in; the '
+               'whole store is compared at the end. Held-on-K-histories '
+               'evidence, not a proof.',
     level_note='Trusted: the model in this file (transcription of the '
                'docstrings of ProviderDispatcher / InstanceWriteProvider / '
                'MainProvider and of the property text), vf.fingerprint for '
@@ -49,11 +64,26 @@ META = dict(
                'of the MOF compiler are generated once per worker by the '
                'tree\'s own _yacc() instead of on every MOFCompiler().',
     design_ref='DESIGN.md section 3, C10',
-    rule='case = one schema + one history; non-trivial if it contains >= 1 '
+    rule='case = one schema (mode plain 40% / associations 38% / namespace '
+         'provider 22%) + one history; non-trivial if it contains >= 1 '
          'rejected and >= 1 successful write and >= 1 read after a client-side '
          'mutation; distinct by the sequence of (operation, outcome) pairs',
     assumptions=[
-        'association classes and reference properties are excluded (C13)',
+        'association traversal is C13\'s subject; here association instances '
+        'are map entries that the mock documents to keep in the target '
+        'namespace and in every namespace a reference names; where that '
+        'documentation leaves the outcome open (a Modify/Delete after which '
+        'some copy is named by no reference any more) the call is not made',
+        'the CIM_Namespace instances present after install_namespace_'
+        'provider are taken as observed (one per namespace is asserted); '
+        'rules for CreateInstance/DeleteInstance of CIM_Namespace are those '
+        'of the CIMNamespaceProvider docstrings and source comments (one '
+        'instance per namespace, Name stripped of slashes, NOT_SUPPORTED '
+        'for ModifyInstance, NAMESPACE_NOT_EMPTY)',
+        'hostile input classes that hit a known store-wrecking mechanism '
+        '(mutating the path returned by CreateInstance, re-cased reference '
+        'values, incomplete / twin CIM_Namespace instances) are enabled per '
+        'history so that one mechanism cannot mask the rest',
         'key values are compared as python values (1 == Uint8(1)); CIM '
         'strings case-sensitively; datetime keys by their 25-char string',
         'where the documentation fixes no precedence between rejection '
@@ -73,7 +103,18 @@ META = dict(
         'write-ok', 'write-rejected', 'read-after-mutation',
         'rejected:INVALID_NAMESPACE', 'rejected:INVALID_CLASS',
         'rejected:INVALID_PARAMETER', 'rejected:ALREADY_EXISTS',
-        'rejected:NOT_FOUND'],
+        'rejected:NOT_FOUND',
+        'assoc-create-ok', 'assoc-multins-create-ok',
+        'read-other-namespace-after-write', 'ref-recased',
+        'ref-endpoint-missing', 'embedded-create-ok',
+        'embedded-unknown-class', 'embedded-unrelated-class',
+        'cim_namespace-create-ok', 'rejected:NOT_SUPPORTED',
+        'rejected:NAMESPACE_NOT_EMPTY',
+        'InstanceWriteProvider.create_multi_namespace_instance',
+        'InstanceWriteProvider.modify_multi_namespace_instance',
+        'CIMNamespaceProvider.CreateInstance',
+        'CIMNamespaceProvider.DeleteInstance',
+        'BaseProvider.is_subclass'],
 )
 
 REACH = ['pywbem_mock._providerdispatcher:ProviderDispatcher.CreateInstance',
@@ -86,7 +127,14 @@ REACH = ['pywbem_mock._providerdispatcher:ProviderDispatcher.CreateInstance',
          'pywbem_mock._inmemoryrepository:InMemoryObjectStore.update',
          'pywbem_mock._inmemoryrepository:InMemoryObjectStore.delete',
          'pywbem_mock._inmemoryrepository:InMemoryObjectStore.get',
-         'pywbem_mock._inmemoryrepository:InMemoryObjectStore.iter_values']
+         'pywbem_mock._inmemoryrepository:InMemoryObjectStore.iter_values',
+         'pywbem_mock._instancewriteprovider:InstanceWriteProvider.'
+         'create_multi_namespace_instance',
+         'pywbem_mock._instancewriteprovider:InstanceWriteProvider.'
+         'modify_multi_namespace_instance',
+         'pywbem_mock._namespaceprovider:CIMNamespaceProvider.CreateInstance',
+         'pywbem_mock._namespaceprovider:CIMNamespaceProvider.DeleteInstance',
+         'pywbem_mock._baseprovider:BaseProvider.is_subclass']
 
 
 def plan(tier):
@@ -479,6 +527,11 @@ class Model:
                 e.mand['NOT_FOUND'] = 'assoc-copy-missing-in-referenced-' \
                                       'namespace'
                 e.opt['INVALID_PARAMETER'] = e.mand['NOT_FOUND']
+                if any(not self.s.has_class(g, cl) for g in touched - have):
+                    # "Validate that the class exists in all of the
+                    # namespaces"
+                    e.mand['INVALID_CLASS'] = \
+                        'assoc-class-missing-in-referenced-namespace'
             elif touched != have:
                 # copies in namespaces no reference names any more: not
                 # documented
